@@ -29,7 +29,6 @@ static std::vector<hwloc_obj_t> all_objs(hwloc_topology_t t) { std::vector<hwloc
 // ---- text dump -------------------------------------------------------------------------------------------
 enum { DUMP_GP = 1, DUMP_USERDATA = 2, DUMP_SUPPORT = 4, DUMP_CONFIG = 8, DUMP_EXTRAS = 16 /* distances, memattrs, cpukinds */, DUMP_ALL = 31 };
 
-static std::string qstr(const char *s) { if (!s) return "(null)"; std::string r = "\""; for (const char *p = s; *p; p++) { unsigned char ch = *p; if (ch < 0x20 || ch >= 0x7f || ch == '"' || ch == '\\') { char b[8]; snprintf(b, sizeof b, "\\x%02x", ch); r += b; } else r += (char)ch; } return r + "\""; }
 static std::string bstr(hwloc_const_bitmap_t b) { if (!b) return "(null)"; char *s = NULL; hwloc_bitmap_list_asprintf(&s, b); std::string r = s ? s : "?"; free(s); return "{" + r + "}"; }
 static std::string fstr(double x) { char b[64]; snprintf(b, sizeof b, "%.4f", x); return b; }  // XML prints floats with %f: 1e-4 granularity is the stated tolerance
 
